@@ -141,6 +141,14 @@ Section PreprocessProofs.
     rewrite map_map. reflexivity.
   Qed.
 
+  Theorem important_flag_carried name lname value imp imp' l :
+    pp1 (IDecl name lname value imp) = Ok l ->
+    Forall (fun o => snd o = imp) l /\
+    pp1 (IDecl name lname value imp') = Ok (map (fun o => (fst o, imp')) l).
+  Proof.
+    intro H. split; [eapply important_carried|eapply important_only_flag]; eauto.
+  Qed.
+
   (* every output comes from one declaration of the block, with that declaration's flag *)
   Theorem outputs_come_from_declarations ds l :
     pp ds = Ok l ->
